@@ -1,6 +1,7 @@
 import Driver.Proto
 import SpsdkVerif.Model.ConfigArea
 import SpsdkVerif.Generated.RegLayouts
+import SpsdkVerif.Generated.RegDetails
 open SpsdkVerif Driver
 open SpsdkVerif.CfgArea SpsdkVerif.Misc
 
@@ -23,6 +24,23 @@ open SpsdkVerif.CfgArea SpsdkVerif.Misc
 
 structure St where
   l : Layout := Layout.ofRaw "none" 0 0 0 0 true [] 0 0 []
+  d : LayoutD := LayoutD.ofRaw 0 [] [] []
+
+def initVals (d : LayoutD) : Vals := d.regs.map (·.init)
+
+def cfgValStr : CfgVal → String
+  | .name n => s!"n{n}"
+  | .num v => s!"v{v}"
+
+/-- clauses of the details table that fail for layout `i` (for the evidence: which family file / which fact) -/
+def failingClauses (l : Layout) (d : LayoutD) : List String :=
+  (if alignedB l d then [] else ["aligned"]) ++ (if resetsB l d then [] else ["resets"]) ++
+  (if enumsFitB l d then [] else ["enums"]) ++ (if computedTargetsB l d then [] else ["computed"]) ++
+  (if regNamesB l d then [] else ["regnames"]) ++ (if fieldNamesB d then [] else ["fieldnames"]) ++
+  (if sealRegsB l then [] else ["seal"]) ++
+  (if l.kind == 6 && !fcbTableB Generated.RegLayouts.fcbSize Generated.RegLayouts.fcbTag l d then ["fcb"] else []) ++
+  (if l.kind == 4 && !fcbTableB Generated.RegLayouts.bcaSize Generated.RegLayouts.bcaTag l d then ["bca"] else []) ++
+  (if l.kind == 9 && !memcfgTableB l d then ["memcfg"] else [])
 
 def csvNat (s : String) : List Nat :=
   if s == "-" then [] else (s.splitOn ",").filterMap (·.toNat?)
@@ -48,13 +66,13 @@ def parseRules (s : String) : List (Nat × Nat) :=
 def stepLine (st : St) : List String → St × String
   | ["sel", i] => match parseNat i with
     | some i => (match Generated.RegLayouts.layouts[i]? with
-      | some l => ({ l := l }, s!"ok {l.regs.length}")
+      | some l => ({ l := l, d := (Generated.RegDetails.details[i]?).getD (LayoutD.ofRaw 0 [] [] []) }, s!"ok {l.regs.length}")
       | none => (st, "bad-index"))
     | none => (st, "bad-op")
   | ["use", size, fill, regs] => match parseNat size, parseNat fill with
     | some size, some fill =>
       let l := Layout.ofRaw "adhoc" 0 size fill 0 true [] 0 0 (parseRegs regs)
-      ({ l := l }, s!"ok {l.regs.length}")
+      ({ st with l := l }, s!"ok {l.regs.length}")
     | _, _ => (st, "bad-op")
   | ["dump"] => (st, dumpLayout st.l)
   | ["count"] => (st, s!"{Generated.RegLayouts.layouts.length} {Generated.RegLayouts.tzWords.length}")
@@ -85,6 +103,30 @@ def stepLine (st : St) : List String → St × String
     | some size, some bt, some inst, some iface =>
       (st, toString (xmcdHeader Generated.RegLayouts.xmcdTag size bt inst iface))
     | _, _, _, _ => (st, "bad-op")
+  | ["fcbparse", h] => match parseHex h, st.d.aux with
+    | some b, [ti] => (st, resLine natCsv (fcbParse Generated.RegLayouts.fcbSize Generated.RegLayouts.fcbTag ti st.l b (initVals st.d)))
+    | _, _ => (st, "bad-op")
+  | ["bcaparse", h] => match parseHex h, st.d.aux with
+    | some b, [ti] => (st, resLine natCsv (bcaParse Generated.RegLayouts.bcaTag ti st.l b (initVals st.d)))
+    | _, _ => (st, "bad-op")
+  | ["fcfparse", h] => match parseHex h with
+    | some b => (st, resLine natCsv (fcfParse Generated.RegLayouts.fcfSize st.l b (initVals st.d)))
+    | none => (st, "bad-op")
+  | ["ow", vals] => (st, resLine natCsv (optionWords st.d.aux st.l (csvNat vals)))
+  | ["init"] => (st, natCsv (initVals st.d))
+  | ["enumval", ri, fi, v] => match parseNat ri, parseNat fi, parseNat v with
+    | some ri, some fi, some v => (match st.d.regs[ri]? with
+      | some rd => (match rd.fields[fi]? with
+        | some fd => (st, cfgValStr (enumValue fd.enums v))
+        | none => (st, "bad-index"))
+      | none => (st, "bad-index"))
+    | _, _, _ => (st, "bad-op")
+  | ["dcheck"] =>
+    let bad := (List.range Generated.RegLayouts.layouts.length).filterMap (fun i =>
+      match Generated.RegLayouts.layouts[i]?, Generated.RegDetails.details[i]? with
+      | some l, some d => let f := failingClauses l d; if f.isEmpty then none else some (s!"{i}:" ++ "+".intercalate f)
+      | _, _ => some s!"{i}:missing")
+    (st, if bad.isEmpty then "-" else ",".intercalate bad)
   | ["tzwords"] => (st, natCsv Generated.RegLayouts.tzWords)
   | ["consts"] => (st, s!"{toHex Generated.RegLayouts.sealMark} {toHex Generated.RegLayouts.bcaTag} {toHex Generated.RegLayouts.fcbTag} {Generated.RegLayouts.xmcdTag}")
   | _ => (st, "bad-op")
